@@ -185,8 +185,8 @@ for node in ast.walk(wf):
 for node in ast.walk(wf):
     if isinstance(node, ast.If) and any("self.connection.execute" in ast.unparse(n) for n in node.body):
         execute_guard = ast.unparse(node.test)
-        sets = [ast.unparse(n) for n in node.body if isinstance(n, ast.Assign)]
-        execute_guard += " / " + "; ".join(sets)
+        steps = ["execute" if "self.connection.execute" in ast.unparse(n) else ast.unparse(n) for n in node.body]
+        execute_guard += " / " + "; ".join(steps)
 if writer_handler is None:
     die("_executor_func: except aiosqlite.OperationalError")
 
